@@ -107,7 +107,7 @@ fn pool() -> Vec<String> {
         "'123", "'=1+1", "'TRUE", "'", "''", "'#REF!", "'1/2/2020", "'5%", "'-$5", "' 12", "'hello",
         "hello", "Hello World", " ", "  ", " 12 ", "12 ", " 12", "a", "-", "+", "--5", "-inf", "inf", "nan", "NaN", "+nan", "-infinity", "infinity", "1e", "e5", "1..2", "1.2.3",
         "http://example.com", "https://example.com/a?b=1", "www.example.com", "user@example.com", "mailto:user@example.com",
-        "=1+1", "=A1", "=SUM(A2:A3)", "=1/0", "=\"a\"", "=TRUE", "=1.5", "=1,5", "=1;2", "=-1", "=", "==", "=1+", "+A2", "-A2", "+1+1", "-(1)", "=IF(A2,1,2)", "=1e3", "=#REF!", "=A2%",
+        "=1+1", "=A1", "=SUM(A2:A3)", "=1/0", "=\"a\"", "=TRUE", "=1.5", "=1,5", "=1;2", "=-1", "=", "==", "=1+", "+A2", "-A2", "+1+1", "-(1)", "=IF(A2,1,2)", "=1e3", "=#REF!", "=A2%", "-E :e'", "-e99 :e9", "-(1):0", "=(1):0", "=E :e",
     ].iter().map(|s| s.to_string()).collect();
     v.push("\u{e9}t\u{e9}".to_string());
     v
@@ -183,6 +183,7 @@ fn main() {
                     (Obs::Bool(bv), Obs::Text(t)) if lang != "en" && s1.style == s2.style && {
                         let g = ironcalc_base::language::get_language(lang).unwrap();
                         *t == if *bv { g.booleans.r#true.clone() } else { g.booleans.r#false.clone() } } => "c18-localized-boolean-becomes-text",
+                    (Obs::Formula, Obs::Formula) if s1.content.contains(':') => "c18-range-formula-display-not-stable",
                     (Obs::Formula, Obs::Formula) => "c18-formula-display-not-stable",
                     (Obs::Formula, _) => "c18-formula-display-not-a-formula",
                     (Obs::Num(..), Obs::Text(t)) if s1.content == "inf" || s1.content == "-inf" || s1.content == "NaN" => { let _ = t; "c18-nonfinite-display" }
